@@ -62,6 +62,48 @@ def register2(op):
         return out
 
 
+    @op
+    def marsh_history(a):
+        """marshal code objects of other versions in THIS process (xdis.marsh.dumps and write_bytecode_file of
+        Python 2.x and 3.x files of the repository's corpus): what the writer did before must not matter later"""
+        import glob
+        import tempfile
+        import xdis.marsh as XM
+        import xdis.load as L
+        from xdis.load import load_module, write_bytecode_file
+        done = []
+        root = a["repo"]
+        for pat in ("test/bytecode_2.7/*.pyc", "test/bytecode_2.4/*.pyc", "test/bytecode_3.3/*.pyc", "test/bytecode_3.8/*.pyc"):
+            for f in sorted(glob.glob(os.path.join(root, pat)))[:2]:
+                saved = L.PYTHON_MAGIC_INT
+                L.PYTHON_MAGIC_INT = -1
+                try:
+                    try:
+                        version, ts, magic, co, ispypy, size, sip = load_module(f)
+                    except BaseException as e:  # noqa
+                        done.append([os.path.basename(f), "load:" + type(e).__name__])
+                        continue
+                finally:
+                    L.PYTHON_MAGIC_INT = saved
+                st = []
+                try:
+                    XM.dumps(co)
+                    st.append("dumps")
+                except BaseException as e:  # noqa
+                    st.append("dumps:" + type(e).__name__)
+                fd, path = tempfile.mkstemp(suffix=".pyc")
+                os.close(fd)
+                try:
+                    write_bytecode_file(path, co, magic, ts or 1700000000, size or 0)
+                    st.append("write")
+                except BaseException as e:  # noqa
+                    st.append("write:" + type(e).__name__)
+                finally:
+                    os.unlink(path)
+                done.append([os.path.basename(f)] + st)
+        return {"done": done}
+
+
 _reg1 = register
 
 
